@@ -102,7 +102,7 @@ theorem assigned_eq_uuidOf {fresh : Nat → U} {st : St N U} {nx : Nat} {occs : 
       simp [assignOcc, hs]
     rw [this]
     simp only [Occ.kind] at hl ⊢
-    exact ⟨by simpa [uuidOf] using rfl, by rw [hl]; rfl⟩
+    exact ⟨by simp [uuidOf], by rw [hl]; rfl⟩
   · have hid : assignOcc out.st o0 = o0 := by simp [assignOcc, hs]
     rw [hid] at ha ⊢
     rcases ha with ha | ha
@@ -538,18 +538,41 @@ theorem validate_idem_needs_WF :
 
 /-! ### the container level: `run` = `runOccs` on the visiting order -/
 
-/-- the statements above, for a container with parse-time records `pre` (state `∅`, which
-is `WF`): one uuid per (kind, name) on all reference objects; all groups listed once with
-that uuid; repeated validation stable. -/
-theorem container_consistent {fresh : Nat → U} {pre : List (Occ N U)} {c : Container N U}
+/-- the statements above, for a container built with parse-time records `pre` (from the
+empty dictionary, which is `WF`): one uuid per (kind, name) on all reference objects; all
+groups listed once with that uuid; explicit uuids of the container's occurrences and of
+the parse-time records on the container's own dictionary win; repeated validation stable. -/
+theorem container_consistent {fresh : Nat → U} {pre : List (PreItem N U)} {c : Container N U}
     {out : Out N U} (h : run fresh pre c = .ok out) :
     (∀ o₁ ∈ out.occs, ∀ o₂ ∈ out.occs, assignable o₁.site = true → assignable o₂.site = true →
       o₁.kind = o₂.kind → o₁.name = o₂.name → o₁.given = o₂.given ∧ o₁.given.isSome = true) ∧
     (out.groups.map Prod.fst).Nodup ∧
     (∀ o ∈ out.occs, o.kind = .group → (o.name, o.given) ∈ out.groups) ∧
+    (∀ e ∈ occsOf c, ∀ u, e.given = some u → uuidOf out e.kind e.name = some u) ∧
+    (∀ e, PreItem.own e ∈ pre → ∀ u, e.given = some u → uuidOf out e.kind e.name = some u) ∧
     runOccs fresh out.st out.next (reOccs out) = .ok out := by
   unfold run at h
-  refine ⟨fun o₁ h1 o₂ h2 a1 a2 hk hn => assign_functional h h1 h2 a1 a2 hk hn,
-    (groups_listed h WF_empty).1, (groups_listed h WF_empty).2.2, validate_idem WF_empty h⟩
+  cases hp : recordPre (St.empty : St N U) pre with
+  | error e => rw [hp] at h; cases h
+  | ok st =>
+    rw [hp] at h
+    simp only at h
+    obtain ⟨hw, _, hg⟩ := recordPre_inv hp WF_empty
+    exact ⟨fun o₁ h1 o₂ h2 a1 a2 hk hn => assign_functional h h1 h2 a1 a2 hk hn,
+      (groups_listed h hw).1, (groups_listed h hw).2.2,
+      fun e he u hu => explicit_wins h he hu,
+      fun e he u hu => recorded_wins h (hg e he u hu),
+      validate_idem hw h⟩
+
+/-- `obj_id`s of rows inside an inserted block (`PreItem.scratch`) are NOT covered by the
+statement above, and cannot be: the code records them in a throw-away dictionary (known
+finding F-C06-a).  Witness: the block's `split_by_group` row gives uuid 3 to group 7, the
+`has_group` case of the container gets the invented uuid 100. -/
+theorem scratch_obj_id_lost :
+    ∃ out, run (fun n => n + 100)
+      [PreItem.scratch [(⟨7, some 3, .pre .group⟩ : Occ Nat Nat)], .own ⟨1, some 5, .pre .flow⟩]
+      ⟨[], [⟨1, some 5, [⟨[], [⟨7, none⟩]⟩]⟩], [], []⟩ = .ok out ∧
+      uuidOf out .group 7 = some 100 := by
+  refine ⟨_, rfl, ?_⟩; decide
 
 end Rpft.Props.C06
